@@ -222,6 +222,21 @@ check('C20', 'DESIGN.md 4/C20',
       'threading async mode only; the harness owns the schedule '
       '(vf/coop.py).')
 
+check('C19', 'DESIGN.md 4/C19',
+      'systematic schedule exploration (cooperative scheduler over real '
+      'threads, exhaustive DFS for small shapes, Hypothesis-generated '
+      'schedules beyond) and generated stimulus orders on a deterministic '
+      'asyncio loop, with a history-invariant oracle',
+      'SimpleClient with its events and buffer replaced by scheduler-aware '
+      'look-alikes: producer (events, loss, reconnection, final disconnect), '
+      'consumer (receive with/without timeout) and emitter are interleaved '
+      'at every event/buffer operation; returned values must be a prefix of '
+      'the arrival sequence, TimeoutError/DisconnectedError only when '
+      'allowed, no receive() parked for ever with an event available or '
+      'after the end. AsyncSimpleClient: stimuli injected at idle points or '
+      'back to back.',
+      TBC + ' Granularity: the client\'s event and buffer operations.')
+
 NOT_BUILT = {}
 
 
